@@ -66,22 +66,38 @@ _JV = None
 
 
 def jalali_vocab():
-    """(months [(name, (index, length, [spellings]))], weekdays {English: [spellings]}, spelled days {n: [spellings]}) read from
-    the parser's own tables; when those attributes were renamed in the tree under test, from the copy committed with the checks."""
+    """(months [(name, (index, length, [spellings]))], weekdays {English: [spellings]}, spelled days {n: [spellings]}).
+    The authority is the copy committed with the checks (the spellings listed at the pinned commit): a tree under test that
+    drops a spelling or files it under another month must not take the expectation with it. Spellings the tree lists in
+    addition are appended under the tree's own index, so new vocabulary is exercised too."""
     global _JV
     if _JV is None:
+        import json
+        import os
+
+        with open(os.path.join(os.path.dirname(os.path.dirname(os.path.abspath(__file__))), "data", "jalali_vocab.json"),
+                  encoding="utf-8") as f:
+            d = json.load(f)
+        months = [(k, (v[0], v[1], list(v[2]))) for k, v in d["months"]]
+        wds = {k: list(v) for k, v in d["weekdays"].items()}
+        letters = {int(k): list(v) for k, v in d["number_letters"].items()}
         try:
             from dateparser.calendars.jalali_parser import jalali_parser as jp
 
-            _JV = (list(jp._months.items()), dict(jp._weekdays.items()), {int(k): list(v) for k, v in jp._number_letters.items()})
+            known = {sp for _, v in months for sp in v[2]}
+            for _, v in jp._months.items():
+                for sp in v[2]:
+                    if sp not in known and 1 <= v[0] <= 12:
+                        months[v[0] - 1][1][2].append(sp)
+            for k, v in jp._weekdays.items():
+                if k in wds:
+                    wds[k] += [sp for sp in v if sp not in wds[k] and not any(sp in o for o in wds.values())]
+            for k, v in jp._number_letters.items():
+                if int(k) in letters:
+                    letters[int(k)] += [sp for sp in v if sp not in letters[int(k)] and not any(sp in o for o in letters.values())]
         except Exception:
-            import json
-            import os
-
-            with open(os.path.join(os.path.dirname(os.path.dirname(os.path.abspath(__file__))), "data", "jalali_vocab.json"),
-                      encoding="utf-8") as f:
-                d = json.load(f)
-            _JV = ([(k, tuple(v)) for k, v in d["months"]], d["weekdays"], {int(k): v for k, v in d["number_letters"].items()})
+            pass
+        _JV = (months, wds, letters)
     return _JV
 
 
